@@ -256,6 +256,13 @@ func (ds *dataSet) TruncateGap() (*dataSetRdb, []*dataSetAof) {
 		}
 	}
 
+	if ds.rdb != nil && len(ds.aofSegs) > 0 && ds.aofSegs[0].Left() > ds.rdb.Left() {
+		// the log that continued the snapshot is gone (an interrupted cache reset unlinks the
+		// files one by one) : the snapshot is the older piece on the far side of a hole
+		rdb = ds.rdb
+		ds.rdb = nil
+	}
+
 	ds.aofMap = make(map[int64]*dataSetAof)
 	for _, a := range ds.aofSegs {
 		ds.aofMap[a.left] = a
